@@ -46,6 +46,12 @@ TABLE = {
  'C19': (MC, 'TLC model of the shared memory map (spec/Mmap.tla); schedules replayed in forked children',
          'TLC checks NoUseAfterUnmap, HoldersMapped, NoLeak, OneMap over all interleavings of 3 generators (different chunk parameters), 2 nested contexts, element reads and writes, and shows that the pinned owner-closes algorithm violates them. Behaviours of the graph are executed on the real Array (3 MiB) each in its own forked child: exit status / terminating signal, every yielded chunk and read element vs the spec, and /proc/self/fd + maps after completion.',
          'Memory safety is observed, not proved. Quick: every schedule up to length 3 + 2500 edge-covering + 300 random long schedules.', '7 C19'),
+ 'C01': (MC, 'TLC-checked chunking algebra (spec/Create.tla) + configuration product against the NumPy reference',
+         'TLC checks ChunkInvariance (the stored row order is the identity for every input form, n and chunklen, through the chunkers of _archunkgenerator, iterchunks and _fillgenerator) and writes one row per (form, n, chunklen, supported element type); each row is executed with rotating configurations (13 types, both byte orders, C/F/strided/negative-stride/transposed/broadcast layouts, ranks 1-4 with length-1 axes, dtype argument None or any type, later iterator chunks in another byte order, special values) and compared as bit patterns, through the returned handle, a fresh handle and the independent file reader, with np.asarray(x) cast to dtype; unsupported element types must raise TypeError with nothing created.',
+         'NumPy is the reference for element values, as the property says; casts whose result C leaves undefined (NaN/inf to integer) are not exercised.', '7 C01'),
+ 'C15': (MC, 'TLC graph walk of a two-directory model (spec/Copy.tla) + archive table (spec/Archive.tla)',
+         'TLC checks Independent and Faithful on the source/copy model; paths of its graph (copy with dtype None or a target type, chunklen None/1/2, sources of length 0-2 with/without metadata, then append/truncate/assign/metadata/delete on either side) are replayed on Arrays and RaggedArrays (zero-length subarrays, ragged arrays without subarrays) and both directories re-read after every step; every archive case (kind x xz/gz/bz2 x overwrite x pre-existing archive x given path) is extracted with tarfile, compared byte for byte with the directory and reopened.',
+         'NumPy reference for astype; target types rotate over the 13 types x 2 byte orders.', '7 C15'),
 }
 NA = {}
 def main():
